@@ -93,7 +93,9 @@ def run(prop, tier, seed, modname=None):
             groups.setdefault(sig, []).append((r.get("cfg"), viol))
     reproduces = getattr(mod, "reproduces", None)
     for sig, items in sorted(groups.items()):
-        cands = [(c, vi) for c, vi in items if vi.get("info")][:getattr(mod, "MAX_REPLAYS", 4)]
+        # smallest configurations first: their counterexamples depend least on uninterpreted-function values
+        cands = sorted([(c, vi) for c, vi in items if vi.get("info")],
+                       key=lambda cv: (cv[0] or {}).get("weight", 1))[:getattr(mod, "MAX_REPLAYS", 4)]
         if not cands:
             v.unreproduced.append(dict(signature=sig, reason="no replay payload", example=items[0][1].get("name")))
             continue
